@@ -124,7 +124,13 @@ pub fn observe(id: &str, four: bool, ap: &str, bytes: &[u8], out: &mut impl Writ
     let mpnh = g(|| u.mp_next_hop(), |o| o.map(|n| nh_s(&n)).unwrap_or("-".into()));
     let pamap = match guard(|| PaMap::from_update_pdu(&u)) { None => "PANIC".to_string(), Some(Err(_)) => "E".into(),
         Some(Ok(m)) => { let codes: Vec<String> = m.attributes().keys().map(|k| k.to_string()).collect(); format!("{}:{}", codes.join("."), m.bytes_len()) } };
-    writeln!(out, "U {id} misc fams={fams} eor={eor} mpnh={mpnh} pamap={pamap}").unwrap();
+    let probes: [(u16, u8); 14] = [(1,1),(1,2),(1,4),(1,128),(1,132),(1,133),(2,1),(2,2),(2,4),(2,128),(2,133),(25,65),(25,70),(1,99)];
+    let fnh: Vec<String> = probes.iter().map(|&(a, s)| {
+        let r = match guard(|| u.find_next_hop(routecore::bgp::types::AfiSafiType::from((a, s)))) { None => "PANIC".to_string(), Some(Err(_)) => "E".into(), Some(Ok(n)) => nh_s(&n) };
+        format!("{a}.{s}:{r}") }).collect();
+    let hasconv = guard(|| u.has_conventional_nlri()).map(|b| (b as u8).to_string()).unwrap_or("PANIC".into());
+    let hasmp = g(|| u.has_mp_nlri(), |b| (b as u8).to_string());
+    writeln!(out, "U {id} misc fams={fams} eor={eor} mpnh={mpnh} pamap={pamap} fnh={} hasconv={hasconv} hasmp={hasmp}", fnh.join(",")).unwrap();
 }
 
 pub fn run(args: &[String]) {
